@@ -1,17 +1,20 @@
 (* Executable model of Server::run and its surroundings (src/Socket/Server.cpp, the epoll
    variant of Socket::Poll in src/Socket/Socket.cpp).  It mirrors the code decision by
-   decision, as the code is after the repairs fixes/C01 (MultiMap::find returns the first entry
-   of an equal run; committed) and fixes/C13/01 (the write readiness of a client event is handled
-   first, the read readiness of the same event afterwards).  No proofs in this file.
+   decision, as the code is in /repo after the committed repairs fixes/C01 (MultiMap::find
+   returns the first entry of an equal run) and fixes/C13/01 (the write readiness of a client
+   event is handled first, the read readiness of the same event afterwards).  No proofs in
+   this file.
 
    Environment (universally quantified inputs): the clock (advanced by [AAdv] and by the [dt]
    of an epoll item), the result of every epoll_wait (an [epitem]: any set of sockets with any
    native bits; when the script runs out another thread calls interrupt() while the loop
-   waits), the outcome of every send/recv/accept/SO_ERROR query (queues in the state), what
-   every callback does (scripts; a callback may create and remove timers, clients, listeners,
-   establishers - also the object it is called for -, write, read, suspend, resume, interrupt,
-   let time pass).  The simulated kernel always reports the event descriptor when it is
-   readable (level-triggered epoll). *)
+   waits), the outcome of every send/recv/accept/SO_ERROR query (queues in the state; an accept
+   or connect for which the test has no fresh client identity fails), what every callback does
+   (scripts; a callback may create and remove timers, clients, listeners, establishers - also
+   the object it is called for -, write, read, suspend, resume, interrupt, let time pass).
+   The simulated kernel always reports the event descriptor when it is readable
+   (level-triggered epoll).  [fuel] bounds the iterations of run() and of its timer and closing
+   phases; a run that exhausts it ends as [stuck] (the implementation would not terminate). *)
 From Coq Require Import ZArith List Bool.
 From ServerLoop Require Import ServerLoopSpec.
 Import ListNotations.
